@@ -793,7 +793,7 @@ class MasterSchemaRow:
 
     @staticmethod
     def _get_master_schema_row_name_and_remaining_sql(
-        row_type, name, sql, remaining_sql_command
+        row_type, name, sql, remaining_sql_command, name_may_end_statement=False
     ):
 
         # Initialize the logger
@@ -1002,6 +1002,17 @@ class MasterSchemaRow:
 
             """
 
+            """
+
+            Nothing follows the name.  A table or index name is always followed by more of the statement, but the
+            module name of a virtual table may be the end of it, since the module arguments are optional:
+            CREATE VIRTUAL TABLE [TABLE_NAME] USING [MODULE_NAME]
+
+            """
+
+            if name_may_end_statement:
+                return remaining_sql_command, ""
+
             log_message = "No {} name found in sql for {} row name: {} and sql: {}."
             log_message = log_message.format(row_type, row_type, name, sql)
             logger.error(log_message)
@@ -1058,7 +1069,11 @@ class TableRow(MasterSchemaRow):
     @staticmethod
     def _get_module_name_and_remaining_sql(name, sql, remaining_sql_command):
         return MasterSchemaRow._get_master_schema_row_name_and_remaining_sql(
-            MASTER_SCHEMA_ROW_TYPE.TABLE, name, sql, remaining_sql_command
+            MASTER_SCHEMA_ROW_TYPE.TABLE,
+            name,
+            sql,
+            remaining_sql_command,
+            name_may_end_statement=True,
         )
 
 
@@ -2223,27 +2238,38 @@ class VirtualTableRow(TableRow):
 
         """
 
-        At this point the remaining portion of the SQL command should be in the form of "( module-argument, ... )".
+        At this point the remaining portion of the SQL command should be in the form of "( module-argument, ... )",
+        or empty: the module arguments are optional ("CREATE VIRTUAL TABLE [TABLE_NAME] USING [MODULE_NAME]").
 
         """
 
-        # The first thing is to get the closing parenthesis index to the module arguments
-        closing_parenthesis_index = get_index_of_closing_parenthesis(
-            remaining_sql_command
-        )
+        if remaining_sql_command:
 
-        # Declare the arguments to be the "(...)" section
-        arguments = remaining_sql_command[: closing_parenthesis_index + 1]
-
-        # Double check the module arguments has a beginning opening parenthesis and ends with a closing parenthesis
-        if arguments.find("(") != 0 or arguments.rfind(")") != len(arguments) - 1:
-            log_message = (
-                "The arguments are not surrounded by parenthesis as expected for table row with name: {}"
-                "and sql: {} with arguments: {}."
+            # The first thing is to get the closing parenthesis index to the module arguments
+            closing_parenthesis_index = get_index_of_closing_parenthesis(
+                remaining_sql_command
             )
-            log_message = log_message.format(self.name, self.sql, arguments)
-            logger.error(log_message)
-            raise MasterSchemaRowParsingError(log_message)
+
+            # Declare the arguments to be the "(...)" section
+            arguments = remaining_sql_command[: closing_parenthesis_index + 1]
+
+            # Double check the module arguments has a beginning opening parenthesis and ends with a closing parenthesis
+            if (
+                arguments.find("(") != 0
+                or arguments.rfind(")") != len(arguments) - 1
+            ):
+                log_message = (
+                    "The arguments are not surrounded by parenthesis as expected for table row with name: {}"
+                    "and sql: {} with arguments: {}."
+                )
+                log_message = log_message.format(self.name, self.sql, arguments)
+                logger.error(log_message)
+                raise MasterSchemaRowParsingError(log_message)
+
+            # Get the remaining sql command after the module arguments
+            remaining_sql_command = remaining_sql_command[
+                closing_parenthesis_index + 1 :
+            ].lstrip()
 
         # Remove the beginning and ending parenthesis and left strip the string in case single whitespace characters
         # appear directly after the opening parenthesis and set it back to the definitions.  The characters before
@@ -2285,11 +2311,6 @@ class VirtualTableRow(TableRow):
                module arguments), or the module arguments, are ignored by SQLite.
 
         """
-
-        # Last get the remaining sql command to check for the "without rowid" use case
-        remaining_sql_command = remaining_sql_command[
-            closing_parenthesis_index + 1 :
-        ].lstrip()
 
         # See if the remaining sql command has any content left
         if len(remaining_sql_command) != 0:
